@@ -402,6 +402,38 @@ def _ranges(xs: list[int]) -> str:
     return ",".join(out)
 
 
+# --------------------------------------------------------------------------- source drift
+
+
+def source_drift(prop: str, repo: str) -> dict:
+    """Compare the definitions in the property's anchor files with harness/pinned_sources.json (written
+    by tools/pin_sources.py at the commit the model was last validated against).  Returns
+    {"changed": [file::qualname, ...], "pinned_at": commit}.  A difference is never a violation: it makes
+    the check run more cases (Ctx.n) because the code the model mirrors has been edited."""
+    pins_file = VERIF / "harness" / "pinned_sources.json"
+    if not pins_file.exists():
+        return {"changed": [], "pinned_at": None, "note": "no pins"}
+    import importlib.util
+
+    spec = importlib.util.spec_from_file_location("pin_sources", VERIF / "tools" / "pin_sources.py")
+    mod = importlib.util.module_from_spec(spec)
+    assert spec and spec.loader
+    spec.loader.exec_module(mod)
+    pins = json.loads(pins_file.read_text())
+    if pins.get("python") != list(sys.version_info[:2]):
+        return {"changed": [], "pinned_at": pins.get("repo_head"), "note": "pins were written by another Python version"}
+    changed = []
+    anchors = set(pins.get("anchors", {}).get(prop, []))
+    cur_files = {p.relative_to(repo).as_posix() for p in (Path(repo) / "lightworks").rglob("*.py")}
+    for f in sorted(set(pins.get("files", {})) | cur_files):
+        old = pins.get("files", {}).get(f, {})
+        cur = mod.function_hashes(Path(repo) / f) if f in cur_files else {}
+        for name in sorted(set(old) | set(cur)):
+            if old.get(name) != cur.get(name):
+                changed.append(f"{f}::{name}" + ("" if f in anchors else "  (outside this property's anchor files)"))
+    return {"changed": changed, "pinned_at": pins.get("repo_head")}
+
+
 # --------------------------------------------------------------------------- check context
 
 
@@ -427,6 +459,12 @@ class Ctx:
         self.known = json.loads(KNOWN.read_text()) if KNOWN.exists() else {"findings": []}
         self._nrep = 0
         self.max_reports = 5
+        # the code the model mirrors was edited since it was pinned: run more cases (never an alarm by itself)
+        try:
+            self.drift = source_drift(prop, os.environ.get("LW_REPO", "/repo"))
+        except Exception as e:  # noqa: BLE001
+            self.drift = {"changed": [], "pinned_at": None, "note": f"drift check failed: {e}"}
+        self.escalation = int(os.environ.get("VERIF_ESCALATION") or (4 if self.drift["changed"] else 1))
 
     # -- model
     @property
@@ -447,8 +485,12 @@ class Ctx:
         if sample is not None and len(self.samples) < 3:
             self.samples.append(sample)
 
-    def n(self, quick: int, thorough: int) -> int:
-        return thorough if self.thorough else quick
+    def n(self, quick, thorough):
+        if self.thorough:
+            return thorough
+        if self.escalation > 1 and isinstance(quick, int) and isinstance(thorough, int) and thorough > quick:
+            return min(thorough, quick * self.escalation)
+        return quick
 
     def out_of_time(self) -> bool:
         """safety cap on the run time of the generated-case loops (case counts are fixed per tier and
@@ -535,6 +577,8 @@ class Ctx:
             "known_findings_reported": [h["id"] for h in self.known_hits],
             "notes": self.notes,
             "pythonhashseed": os.environ.get("PYTHONHASHSEED"),
+            "source_drift": {"pinned_at": self.drift.get("pinned_at"), "changed_definitions": self.drift["changed"][:40],
+                             "case_count_escalation": self.escalation},
         }
         if "leanchecker" in audit:
             cov["leanchecker"] = audit["leanchecker"]
